@@ -226,7 +226,7 @@ pub fn run(ctx: &Ctx, model: &mut Model, rep: &mut Report) {
         }
         return;
     }
-    let n = if ctx.thorough { 3000 } else { 250 };
+    let n = if ctx.thorough { 3000 } else { 600 };
     for i in 0..n {
         let mut r = Rng::for_case(ctx.seed ^ 0xC17, i as u64);
         let (lib, depth) = match i % 10 {
